@@ -1,35 +1,87 @@
 (* C09 — The language server's last word on a document reflects the latest text.
    This file pins the statements; it contains nothing but `exact`.
    Model: Model/Server.v (handlers of harper-ls/src/backend.rs split at their awaits, at most four in
-   flight, any enabled one may advance).  `lastword w u` is what the client shows for u (the most
-   recent publishDiagnostics, by provenance), `expected w u` what the property demands. *)
-Require Import Base Server ServerProofs ServerSeq ServerConc ServerClose.
+   flight, any enabled one may advance; update_document compares document versions and keeps base_dict).
+   `lastword w u` is what the client shows for u (the most recent publishDiagnostics, by provenance),
+   `expected w u` what the property demands, `pubval w u` what doc_state would publish now. *)
+Require Import Base Server ServerProofs ServerSeq ServerConc ServerClose ServerVer.
 
-(* F17a — two didChange in flight, handled in the opposite order: the server's last word (and its
-   doc_state) is the OLDER text.  `reorder_schedule` admits both, then runs the second to completion
-   before the first. *)
+(* ================================================================================================
+   What does NOT hold (each with a concrete schedule on the faithful model; replayed on the real
+   Backend by the harness).
+   ================================================================================================ *)
+
+(* F17a, what remains of it after the version check (1): a didChange overtakes the didOpen of its document.
+   It finds no entry, inserts one without language and removes it again - the version is lost with it -
+   and the didOpen then installs the OLDER text *)
 Theorem C09_reorder_refuted :
-  exists y, run reorder_schedule (init reorder_history (world0 0)) = Some y /\ quiescent y /\
+  exists y, run open_change_schedule (init open_change_history (world0 0)) = Some y /\ quiescent y /\
     exists a b, lastword (y_world y) uA = PDiag a /\ expected (y_world y) uA = PDiag b /\
-                a_text a = tx 1 /\ a_text b = tx 2 /\ pubval (y_world y) uA = PDiag a.
-Proof. exact reorder_refuted. Qed.
+                a_text a = tx 0 /\ a_text b = tx 1 /\ pubval (y_world y) uA = PDiag a.
+Proof. exact change_overtakes_open. Qed.
 Check C09_reorder_refuted :
-  exists y, run reorder_schedule (init reorder_history (world0 0)) = Some y /\ quiescent y /\
+  exists y, run open_change_schedule (init open_change_history (world0 0)) = Some y /\ quiescent y /\
     exists a b, lastword (y_world y) uA = PDiag a /\ expected (y_world y) uA = PDiag b /\
-                a_text a = tx 1 /\ a_text b = tx 2 /\ pubval (y_world y) uA = PDiag a.
+                a_text a = tx 0 /\ a_text b = tx 1 /\ pubval (y_world y) uA = PDiag a.
 Print Assumptions C09_reorder_refuted.
 
-(* the same at the granularity the harness executes on the real Backend *)
-Theorem C09_reorder_refuted_client_granularity :
-  exists y, krun reorder_kschedule (init reorder_history (world0 0)) = Some y /\ quiescent y /\
-    freshb (y_world y) uA = false.
-Proof. exact reorder_refuted_k. Qed.
-Check C09_reorder_refuted_client_granularity :
-  exists y, krun reorder_kschedule (init reorder_history (world0 0)) = Some y /\ quiescent y /\
-    freshb (y_world y) uA = false.
-Print Assumptions C09_reorder_refuted_client_granularity.
+(* F17a (2): a didClose overtakes the didOpen - the closed document ends with diagnostics and stays in doc_state *)
+Theorem C09_reorder_close_refuted :
+  exists y, run close_open_schedule (init close_open_history (world0 0)) = Some y /\ quiescent y /\
+    lookup uA (w_open (y_world y)) = None /\ expected (y_world y) uA = PEmpty /\
+    exists a, lastword (y_world y) uA = PDiag a /\ pubval (y_world y) uA = PDiag a.
+Proof. exact close_overtakes_open. Qed.
+Check C09_reorder_close_refuted :
+  exists y, run close_open_schedule (init close_open_history (world0 0)) = Some y /\ quiescent y /\
+    lookup uA (w_open (y_world y)) = None /\ expected (y_world y) uA = PEmpty /\
+    exists a, lastword (y_world y) uA = PDiag a /\ pubval (y_world y) uA = PDiag a.
+Print Assumptions C09_reorder_close_refuted.
 
-(* F17b — HarperAddToUserDict / HarperAddToFileDict / didChangeConfiguration re-read the FILE: with an
+(* F17a (3): a didChange overtakes a didSave.  The save re-reads the file (the text of the moment it was
+   written) and carries no version: nothing stops it from replacing the newer text *)
+Theorem C09_reorder_save_refuted :
+  exists y, run save_change_schedule (init save_change_history (world0 0)) = Some y /\ quiescent y /\
+    exists a b, lastword (y_world y) uA = PDiag a /\ expected (y_world y) uA = PDiag b /\
+                a_text a = tx 0 /\ a_text b = tx 1.
+Proof. exact change_overtakes_save. Qed.
+Check C09_reorder_save_refuted :
+  exists y, run save_change_schedule (init save_change_history (world0 0)) = Some y /\ quiescent y /\
+    exists a b, lastword (y_world y) uA = PDiag a /\ expected (y_world y) uA = PDiag b /\
+                a_text a = tx 0 /\ a_text b = tx 1.
+Print Assumptions C09_reorder_save_refuted.
+
+(* F17a (4): dictionary race.  A didChange has read the dictionary files when HarperAddToUserDict (sent before
+   it) writes the new word; it then installs the old dictionary.  One at a time the same messages end well *)
+Theorem C09_dictionary_race_refuted :
+  exists y, run dict_race_schedule (init dict_race_history (world0 0)) = Some y /\ quiescent y /\
+    exists a b, lastword (y_world y) uA = PDiag a /\ expected (y_world y) uA = PDiag b /\
+                a_text a = tx 1 /\ a_text b = tx 1 /\ dv_user (a_dict a) = [] /\ dv_user (a_dict b) = [5].
+Proof. exact dict_race. Qed.
+Check C09_dictionary_race_refuted :
+  exists y, run dict_race_schedule (init dict_race_history (world0 0)) = Some y /\ quiescent y /\
+    exists a b, lastword (y_world y) uA = PDiag a /\ expected (y_world y) uA = PDiag b /\
+                a_text a = tx 1 /\ a_text b = tx 1 /\ dv_user (a_dict a) = [] /\ dv_user (a_dict b) = [5].
+Print Assumptions C09_dictionary_race_refuted.
+
+(* F17f (new with the version check, which sits after the dictionary refresh): an outdated didChange of a
+   source file that arrives after the user dictionary changed resets dict / ident_dict / linter and returns
+   early; the newest text is re-published with its identifiers reported as misspelt *)
+Theorem C09_stale_update_refuted :
+  exists y, run stale_update_schedule (init stale_update_history (world0 0)) = Some y /\ quiescent y /\
+    exists a b, lastword (y_world y) uA = PDiag a /\ expected (y_world y) uA = PDiag b /\
+                a_text a = code_text 2 /\ a_text b = code_text 2 /\
+                dv_user (a_dict a) = [5] /\ dv_user (a_dict b) = [5] /\
+                dv_ident (a_dict a) = 0 /\ dv_ident (a_dict b) = 7.
+Proof. exact stale_update_drops_identifiers. Qed.
+Check C09_stale_update_refuted :
+  exists y, run stale_update_schedule (init stale_update_history (world0 0)) = Some y /\ quiescent y /\
+    exists a b, lastword (y_world y) uA = PDiag a /\ expected (y_world y) uA = PDiag b /\
+                a_text a = code_text 2 /\ a_text b = code_text 2 /\
+                dv_user (a_dict a) = [5] /\ dv_user (a_dict b) = [5] /\
+                dv_ident (a_dict a) = 0 /\ dv_ident (a_dict b) = 7.
+Print Assumptions C09_stale_update_refuted.
+
+(* F17b - HarperAddToUserDict / HarperAddToFileDict / didChangeConfiguration re-read the FILE: with an
    unsaved buffer (text 1) the last word is that of the text on disk (text 9), one handler at a time *)
 Theorem C09_disk_refuted :
   shows_disk_text (AddUser 5 uA) /\ shows_disk_text (AddFile 5 uA) /\ shows_disk_text (CfgChange 1 []).
@@ -38,44 +90,31 @@ Check C09_disk_refuted :
   shows_disk_text (AddUser 5 uA) /\ shows_disk_text (AddFile 5 uA) /\ shows_disk_text (CfgChange 1 []).
 Print Assumptions C09_disk_refuted.
 
-(* F17c — the user dictionary is global, but only the document named in the command is re-checked *)
+(* F17c - the user dictionary is global, but only the document named in the command is re-checked *)
 Theorem C09_other_document_refuted :
-  exists w, run_seq [Open uA LPlain (tx 0); Open uB LPlain (tx 1); Save uA; Save uB; AddUser 5 uA] (world0 0) = Some w /\
+  exists w, run_seq [Open uA LPlain (tx 0) 1; Open uB LPlain (tx 1) 1; Save uA; Save uB; AddUser 5 uA] (world0 0) = Some w /\
     freshb w uA = true /\
     exists a b, lastword w uB = PDiag a /\ expected w uB = PDiag b /\
                 dv_user (a_dict a) = [] /\ dv_user (a_dict b) = [5].
 Proof. exact other_document_stale. Qed.
 Check C09_other_document_refuted :
-  exists w, run_seq [Open uA LPlain (tx 0); Open uB LPlain (tx 1); Save uA; Save uB; AddUser 5 uA] (world0 0) = Some w /\
+  exists w, run_seq [Open uA LPlain (tx 0) 1; Open uB LPlain (tx 1) 1; Save uA; Save uB; AddUser 5 uA] (world0 0) = Some w /\
     freshb w uA = true /\
     exists a b, lastword w uB = PDiag a /\ expected w uB = PDiag b /\
                 dv_user (a_dict a) = [] /\ dv_user (a_dict b) = [5].
 Print Assumptions C09_other_document_refuted.
 
-(* F17d — a document that cannot be read from disk (untitled:) is re-published from the old check *)
+(* F17d - a document that cannot be read from disk (untitled:) is re-published from the old check *)
 Theorem C09_untitled_refuted :
-  exists w, run_seq [Open (UUntitled 1) LPlain (tx 0); AddUser 5 (UUntitled 1)] (world0 0) = Some w /\
+  exists w, run_seq [Open (UUntitled 1) LPlain (tx 0) 1; AddUser 5 (UUntitled 1)] (world0 0) = Some w /\
     exists a b, lastword w (UUntitled 1) = PDiag a /\ expected w (UUntitled 1) = PDiag b /\
                 dv_user (a_dict a) = [] /\ dv_user (a_dict b) = [5].
 Proof. exact untitled_stale. Qed.
 Check C09_untitled_refuted :
-  exists w, run_seq [Open (UUntitled 1) LPlain (tx 0); AddUser 5 (UUntitled 1)] (world0 0) = Some w /\
+  exists w, run_seq [Open (UUntitled 1) LPlain (tx 0) 1; AddUser 5 (UUntitled 1)] (world0 0) = Some w /\
     exists a b, lastword w (UUntitled 1) = PDiag a /\ expected w (UUntitled 1) = PDiag b /\
                 dv_user (a_dict a) = [] /\ dv_user (a_dict b) = [5].
 Print Assumptions C09_untitled_refuted.
-
-(* F17e — the second update of a source-code document drops its identifier dictionary: the same text
-   is checked differently after open;change than after open *)
-Theorem C09_ident_refuted :
-  exists w, run_seq [Open uA LCode code_text; Change uA code_text] (world0 0) = Some w /\
-    exists a b, lastword w uA = PDiag a /\ expected w uA = PDiag b /\
-                a_text a = a_text b /\ dv_ident (a_dict a) = 0 /\ dv_ident (a_dict b) = 7.
-Proof. exact ident_refuted. Qed.
-Check C09_ident_refuted :
-  exists w, run_seq [Open uA LCode code_text; Change uA code_text] (world0 0) = Some w /\
-    exists a b, lastword w uA = PDiag a /\ expected w uA = PDiag b /\
-                a_text a = a_text b /\ dv_ident (a_dict a) = 0 /\ dv_ident (a_dict b) = 7.
-Print Assumptions C09_ident_refuted.
 
 (* ================================================================================================
    What DOES hold.
@@ -84,23 +123,26 @@ Print Assumptions C09_ident_refuted.
 (* Sequential clause, _partial: one handler at a time (run_seq), from a freshly initialised server.
    For every history whose messages satisfy the side conditions `op_safeb` in the world they are sent
    in (Proofs/ServerSeq.v):
-     didOpen of a document that is not open; didChange of one that is; didSave, didClose,
-     didChangeWatchedFiles, HarperIgnoreLint, HarperRecordLint: always;
+     didOpen of a document that is not open; didChange of one that is, with a version not older than the
+       previous one (an older one is ignored by the server); didSave, didClose, didChangeWatchedFiles,
+       HarperIgnoreLint, HarperRecordLint: always;
      HarperAddToUserDict x u: u is closed, has no parser, or is saved (file on disk = buffer), AND the word
        is already there or every OTHER open document has no parser;
      HarperAddToFileDict x u: u is closed, has no parser, is saved, or is untitled;
-     didChangeConfiguration: every open document with a parser is saved;
-     texts of source-code documents define no identifiers (t_ident = 0),
+     didChangeConfiguration: every open document with a parser is saved,
    the last publication for every document is computed from the newest client text, the current
-   dictionary files and the current settings (linter, parser and severity alike) and the client's ignore
-   list; doc_state agrees (pubval); documents that are not open end with [].
-   Missing for the full clause: exactly the excluded cases, each refuted above (F17b-e). *)
-Theorem C09_sequential_partial : forall h c w,
+   dictionary files (with the identifiers of a source file merged in) and the current settings (linter,
+   parser and severity alike) and the client's ignore list; doc_state agrees (pubval); documents that are
+   not open end with [].  Source files may define identifiers (F17e is repaired).
+   Missing for the full clause: exactly the excluded cases, each refuted above (F17b-d) *)
+Theorem C09_sequential_partial :
+  forall h c w,
   seq_safeb h (world0 c) = true -> run_seq h (world0 c) = Some w ->
   forall u, lastword w u = expected w u /\ pubval w u = expected w u /\
             (lookup u (w_open w) = None -> lastword w u = PEmpty).
 Proof. exact sequential. Qed.
-Check C09_sequential_partial : forall h c w,
+Check C09_sequential_partial :
+  forall h c w,
   seq_safeb h (world0 c) = true -> run_seq h (world0 c) = Some w ->
   forall u, lastword w u = expected w u /\ pubval w u = expected w u /\
             (lookup u (w_open w) = None -> lastword w u = PEmpty).
@@ -108,83 +150,154 @@ Print Assumptions C09_sequential_partial.
 
 (* the same in the property's words: whatever function `diag` of (text, language, dictionaries,
    configuration, ignore list) the diagnostics are, the diagnostics shown last are diag of the newest *)
-Theorem C09_sequential_diag_partial : forall (D : Type) (diag : dargs -> D) (none : D) h c w,
+Theorem C09_sequential_diag_partial :
+  forall (D : Type) (diag : dargs -> D) (none : D) h c w,
   seq_safeb h (world0 c) = true -> run_seq h (world0 c) = Some w ->
   forall u, shown D diag none (lastword w u) = shown D diag none (expected w u).
 Proof. exact sequential_diag. Qed.
-Check C09_sequential_diag_partial : forall (D : Type) (diag : dargs -> D) (none : D) h c w,
+Check C09_sequential_diag_partial :
+  forall (D : Type) (diag : dargs -> D) (none : D) h c w,
   seq_safeb h (world0 c) = true -> run_seq h (world0 c) = Some w ->
   forall u, shown D diag none (lastword w u) = shown D diag none (expected w u).
 Print Assumptions C09_sequential_diag_partial.
 
-(* the hypotheses are satisfiable by a history that contains every kind of message *)
+(* the hypotheses are satisfiable by a history that contains every kind of message, a source file with identifiers included *)
 Example C09_sequential_nonvacuous :
   seq_safeb demo_history (world0 0) = true /\
   exists w, run_seq demo_history (world0 0) = Some w /\
-    lastword w (UFile 0 0) = PDiag (mkargs (mktext 6 0) LMarkdown (mkdict [3] [4] 0) 2 2 2 [1]) /\
+    lastword w (UFile 0 0) = PDiag (mkargs (mktext 6 0) LMarkdown (mkdict [3] [4] 0) (mkdict [3] [4] 0) 2 2 2 [1]) /\
     lastword w (UFile 0 1) = PEmpty /\ lastword w (UFile 1 0) = PEmpty.
 Proof. exact demo_history_safe. Qed.
+
+(* What the version check guarantees (fix of the two-didChange half of F17a), for EVERY interleaving of
+   the handlers' await-to-await segments with up to four in flight: from any up-to-date server (Inv), any
+   number of didChange notifications - for any open documents, several per document, all in flight together -
+   whose versions increase per document (vrun admits `Change u t v` only when v is larger than the version
+   of the last message sent for u), completing in ANY order, end with the last word of every document
+   computed from its newest text, and doc_state holding it.  (An outdated handler returns before it
+   touches the document; use_ident_dict and its held mutex are covered.)
+   Outside this theorem - a didOpen, didClose, didSave, command or configuration change in flight with
+   them - the conclusion fails: the refutations above *)
+Theorem C09_versioned_changes :
+  forall h w0 cs y,
+  Inv w0 -> vrun cs (init h w0) = Some y -> quiescent y ->
+  forall u, lastword (y_world y) u = expected (y_world y) u /\ pubval (y_world y) u = expected (y_world y) u.
+Proof. exact versioned_changes. Qed.
+Check C09_versioned_changes :
+  forall h w0 cs y,
+  Inv w0 -> vrun cs (init h w0) = Some y -> quiescent y ->
+  forall u, lastword (y_world y) u = expected (y_world y) u /\ pubval (y_world y) u = expected (y_world y) u.
+Print Assumptions C09_versioned_changes.
+
+(* vrun accepts only schedules of the real dispatcher *)
+Theorem C09_versioned_is_schedule :
+  forall cs y y', vrun cs y = Some y' -> run cs y = Some y'.
+Proof. exact versioned_is_schedule. Qed.
+Check C09_versioned_is_schedule :
+  forall cs y y', vrun cs y = Some y' -> run cs y = Some y'.
+Print Assumptions C09_versioned_is_schedule.
+
+(* four didChange in flight together (three for one source file whose identifiers change twice), the newest
+   completing before an older one, a handler holding the doc_state mutex inside use_ident_dict meanwhile *)
+Example C09_versioned_nonvacuous :
+  exists w0 y, run_seq ver_setup (world0 0) = Some w0 /\ Inv w0 /\
+    vrun ver_schedule (init ver_history w0) = Some y /\ quiescentb y = true /\
+    lastword (y_world y) (UFile 0 0) = PDiag (mkargs (mktext 5 9) LCode (mkdict [] [] 9) (mkdict [] [] 9) 0 0 0 []) /\
+    lastword (y_world y) (UFile 0 1) = PDiag (mkargs (mktext 4 0) LPlain (mkdict [] [] 0) (mkdict [] [] 0) 0 0 0 []) /\
+    length (s_log (y_world y)) = 6.
+Proof. exact ver_schedule_runs. Qed.
+
+(* the OLD witness of F17a (two didChange handled in the opposite order), at both granularities: it now ends well *)
+Example C09_reorder_fixed_example :
+  (exists y, run reorder_schedule (init reorder_history (world0 0)) = Some y /\ quiescent y /\
+     freshb (y_world y) uA = true /\
+     exists a, lastword (y_world y) uA = PDiag a /\ a_text a = tx 2 /\ length (s_log (y_world y)) = 3) /\
+  (exists y, krun reorder_kschedule (init reorder_history (world0 0)) = Some y /\ quiescent y /\
+     freshb (y_world y) uA = true).
+Proof. exact (conj reorder_now_fresh reorder_now_fresh_k). Qed.
+
+(* the OLD witness of F17e (second update of a source file): the identifiers are kept *)
+Example C09_ident_fixed_example :
+  exists w, run_seq [Open uA LCode (code_text 0) 1; Change uA (code_text 0) 2] (world0 0) = Some w /\
+    freshb w uA = true /\
+    exists a, lastword w uA = PDiag a /\ dv_ident (a_dict a) = 7 /\ dv_ident (a_ddict a) = 7.
+Proof. exact ident_survives_update. Qed.
 
 (* Concurrent clause, _partial: for EVERY interleaving of the handlers' await-to-await segments with up
    to four handlers in flight (xrun = run restricted at admission), provided a message is admitted only
    while no handler in flight concerns the same document, and the messages are
    didOpen/didChange/didSave/didClose/HarperIgnoreLint/HarperRecordLint satisfying op_safeb: when
    everything has been handled, the last word for every document is right.
-   Missing for the full clause: two handlers for one document in flight (refuted: F17a) and handlers
-   with global effects (dictionary commands, configuration changes, deletions) in flight with others. *)
-Theorem C09_exclusive_concurrency_partial : forall h w0 cs y,
+   Missing for the full clause: handlers of one document in flight together other than the didChange
+   batches of C09_versioned_changes (refuted: F17a) and handlers with global effects (dictionary commands,
+   configuration changes, deletions) in flight with others *)
+Theorem C09_exclusive_concurrency_partial :
+  forall h w0 cs y,
   Inv w0 -> xrun cs (init h w0) = Some y -> quiescent y ->
   forall u, lastword (y_world y) u = expected (y_world y) u /\
             (lookup u (w_open (y_world y)) = None -> lastword (y_world y) u = PEmpty).
 Proof. exact exclusive_concurrency. Qed.
-Check C09_exclusive_concurrency_partial : forall h w0 cs y,
+Check C09_exclusive_concurrency_partial :
+  forall h w0 cs y,
   Inv w0 -> xrun cs (init h w0) = Some y -> quiescent y ->
   forall u, lastword (y_world y) u = expected (y_world y) u /\
             (lookup u (w_open (y_world y)) = None -> lastword (y_world y) u = PEmpty).
 Print Assumptions C09_exclusive_concurrency_partial.
 
 (* xrun accepts only schedules of the real dispatcher; a fresh server satisfies Inv *)
-Theorem C09_exclusive_is_schedule : forall cs y y', xrun cs y = Some y' -> run cs y = Some y'.
+Theorem C09_exclusive_is_schedule :
+  forall cs y y', xrun cs y = Some y' -> run cs y = Some y'.
 Proof. exact exclusive_is_schedule. Qed.
-Check C09_exclusive_is_schedule : forall cs y y', xrun cs y = Some y' -> run cs y = Some y'.
+Check C09_exclusive_is_schedule :
+  forall cs y y', xrun cs y = Some y' -> run cs y = Some y'.
 Print Assumptions C09_exclusive_is_schedule.
 
-Theorem C09_fresh_server_inv : forall c, Inv (world0 c).
+(* a freshly initialised server is up to date *)
+Theorem C09_fresh_server_inv :
+  forall c, Inv (world0 c).
 Proof. exact inv_world0. Qed.
-Check C09_fresh_server_inv : forall c, Inv (world0 c).
+Check C09_fresh_server_inv :
+  forall c, Inv (world0 c).
 Print Assumptions C09_fresh_server_inv.
 
+(* three documents (one a source file with identifiers), their handlers interleaved instr by instr *)
 Example C09_exclusive_nonvacuous :
   exists y, xrun conc_schedule (init conc_history (world0 0)) = Some y /\ quiescentb y = true /\
-    lastword (y_world y) (UFile 0 0) = PDiag (mkargs (mktext 3 0) LMarkdown (mkdict [] [] 0) 0 0 0 [1]) /\
-    lastword (y_world y) (UFile 0 1) = PDiag (mkargs (mktext 1 0) LPlain (mkdict [] [] 0) 0 0 0 []) /\
+    lastword (y_world y) (UFile 0 0) = PDiag (mkargs (mktext 3 0) LMarkdown (mkdict [] [] 0) (mkdict [] [] 0) 0 0 0 [1]) /\
+    lastword (y_world y) (UFile 0 1) = PDiag (mkargs (mktext 1 4) LCode (mkdict [] [] 4) (mkdict [] [] 4) 0 0 0 []) /\
     lastword (y_world y) (UUntitled 0) = PEmpty.
 Proof. exact conc_schedule_runs. Qed.
 
 (* C09_close_wins: once a document is absent from doc_state (did_close and deletions remove it and
    publish [], close_removes), then for every schedule and whatever else is in flight or queued - didChange,
    didSave, commands, configuration changes, deletions, for any document - as long as no didOpen is in
-   flight or queued: the document stays absent, and if its last word was [] it stays []. *)
-Theorem C09_close_wins : forall cs u y y',
+   flight or queued: the document stays absent, and if its last word was [] it stays [] *)
+Theorem C09_close_wins :
+  forall cs u y y',
   no_open_pending y -> lookup u (s_docs (y_world y)) = None -> run cs y = Some y' ->
   lookup u (s_docs (y_world y')) = None /\
   (lastword (y_world y) u = PEmpty -> lastword (y_world y') u = PEmpty).
 Proof. exact close_wins. Qed.
-Check C09_close_wins : forall cs u y y',
+Check C09_close_wins :
+  forall cs u y y',
   no_open_pending y -> lookup u (s_docs (y_world y)) = None -> run cs y = Some y' ->
   lookup u (s_docs (y_world y')) = None /\
   (lastword (y_world y) u = PEmpty -> lastword (y_world y') u = PEmpty).
 Print Assumptions C09_close_wins.
 
-Theorem C09_close_removes : forall l w push l' w',
+(* did_close itself removes the document and publishes [] *)
+Theorem C09_close_removes :
+  forall l w push l' w',
   exec IClose l w = Some (push, l', w') ->
   lookup (l_url l) (s_docs w') = None /\ lastword w' (l_url l) = PEmpty.
 Proof. exact close_removes. Qed.
-Check C09_close_removes : forall l w push l' w',
+Check C09_close_removes :
+  forall l w push l' w',
   exec IClose l w = Some (push, l', w') ->
   lookup (l_url l) (s_docs w') = None /\ lastword w' (l_url l) = PEmpty.
 Print Assumptions C09_close_removes.
 
+(* a didChange is in flight when the didClose is handled; it finishes afterwards *)
 Example C09_close_wins_nonvacuous :
   exists y, run cw_prefix (init cw_history (world0 0)) = Some y /\
     (forall hs, In hs (y_flight y) -> l_lang (h_loc hs) = None) /\ y_flight y <> [] /\
